@@ -263,7 +263,7 @@ func (g *ghostGen) generate() (string, []*Harness) {
 				continue
 			}
 			start := strings.Count(body.String(), "\n")
-			bodyEmit("%s\n", desugarDecl(d))
+			bodyEmit("%s\n", desugarDecl(d, cf.Logical))
 			cf.declLn = append(cf.declLn, [2]int{start, strings.Count(body.String(), "\n")})
 		}
 		for _, it := range cf.Items {
@@ -273,6 +273,102 @@ func (g *ghostGen) generate() (string, []*Harness) {
 			var tps []tparam
 			var paramDecl, callText, resultBind string
 			base := ""
+			if it.Kind == "iface" {
+				ts := g.src.types[it.Recv]
+				var mt *ast.FuncType
+				if ts != nil {
+					if ity, ok := ts.Type.(*ast.InterfaceType); ok {
+						for _, f := range ity.Methods.List {
+							for _, nm := range f.Names {
+								if nm.Name == it.Name {
+									mt, _ = f.Type.(*ast.FuncType)
+								}
+							}
+						}
+					}
+				}
+				if mt == nil {
+					it.Stale = "interface method " + it.Recv + "." + it.Name + " not found"
+					continue
+				}
+				tps = fieldListTParams(ts.TypeParams)
+				recvT := it.Recv + tparamsUse(tps)
+				if len(it.Names) == 0 {
+					it.Stale = "contract must name the receiver"
+					continue
+				}
+				params := []string{it.Names[0] + " " + recvT}
+				k := 1
+				bad := false
+				for _, f := range mt.Params.List {
+					cnt := len(f.Names)
+					if cnt == 0 {
+						cnt = 1
+					}
+					for j := 0; j < cnt; j++ {
+						if k >= len(it.Names) {
+							bad = true
+							break
+						}
+						params = append(params, it.Names[k]+" "+types.ExprString(f.Type))
+						k++
+					}
+				}
+				if bad || k != len(it.Names) {
+					it.Stale = "contract names a different number of parameters than the interface method has"
+					continue
+				}
+				resDecl := ""
+				if mt.Results != nil {
+					ri := 0
+					for _, f := range mt.Results.List {
+						cnt := len(f.Names)
+						if cnt == 0 {
+							cnt = 1
+						}
+						for j := 0; j < cnt; j++ {
+							nm := "result"
+							if ri < len(it.Results) {
+								nm = it.Results[ri]
+							}
+							resDecl += ", " + nm + " " + types.ExprString(f.Type)
+							ri++
+						}
+					}
+				}
+				base = "V_I_" + sanitizeIdent(it.Recv) + "_" + sanitizeIdent(it.Name)
+				var reqs []string
+				for _, c := range it.Clauses {
+					if c.Kind == "requires" {
+						reqs = append(reqs, dsg(it, c.Expr))
+					}
+				}
+				reqExpr := "true"
+				if len(reqs) > 0 {
+					reqExpr = "(" + strings.Join(reqs, ") && (") + ")"
+				}
+				emit := func(name, decl, expr string) {
+					h := &Harness{Item: it, Clause: -2, GhostFn: name, Summary: true}
+					var fb strings.Builder
+					fmt.Fprintf(&fb, "func %s%s(%s) bool {\n\treturn %s\n}\n\n", name, tparamsDecl(tps), decl, expr)
+					h.startLn = strings.Count(body.String(), "\n")
+					body.WriteString(fb.String())
+					h.endLn = strings.Count(body.String(), "\n")
+					for _, in := range append([]string{it.Inst}, it.MoreInst...) {
+						drv = append(drv, name+driverArgs(tps, in))
+					}
+					g.harn = append(g.harn, h)
+				}
+				emit(base+"_req", strings.Join(params, ", "), reqExpr)
+				pi := 0
+				for _, c := range it.Clauses {
+					if c.Kind == "ensures" {
+						emit(fmt.Sprintf("%s_p%d", base, pi), strings.Join(params, ", ")+resDecl, dsg(it, c.Expr))
+						pi++
+					}
+				}
+				continue
+			}
 			if it.Kind == "lemma" {
 				base = "V_L_" + sanitizeIdent(it.Name)
 				// signature: [tparams](params)
@@ -405,7 +501,7 @@ func (g *ghostGen) generate() (string, []*Harness) {
 			var reqs []string
 			for _, c := range it.Clauses {
 				if c.Kind == "requires" {
-					reqs = append(reqs, desugar(c.Expr))
+					reqs = append(reqs, dsg(it, c.Expr))
 				}
 			}
 			ei := 0
@@ -428,7 +524,7 @@ func (g *ghostGen) generate() (string, []*Harness) {
 				if it.Kind == "func" && !strings.Contains(c.Expr, "NOCALL") {
 					fmt.Fprintf(&fb, "\tverifspec.Begin()\n\t%s\tverifspec.End()\n", resultBind)
 				}
-				fmt.Fprintf(&fb, "\treturn %s\n}\n\n", desugar(strings.ReplaceAll(c.Expr, "NOCALL", "")))
+				fmt.Fprintf(&fb, "\treturn %s\n}\n\n", dsg(it, strings.ReplaceAll(c.Expr, "NOCALL", "")))
 				h.startLn = strings.Count(body.String(), "\n")
 				body.WriteString(fb.String())
 				h.endLn = strings.Count(body.String(), "\n")
@@ -497,7 +593,7 @@ func (g *ghostGen) generate() (string, []*Harness) {
 					if c.Kind != "ensures" || strings.Contains(c.Expr, "Calls(") || strings.Contains(c.Expr, "NoCalls(") || strings.Contains(c.Expr, "Fresh(") || strings.Contains(c.Expr, "Unchanged(") {
 						continue
 					}
-					emitPred(fmt.Sprintf("%s_p%d", base, pi), desugar(c.Expr))
+					emitPred(fmt.Sprintf("%s_p%d", base, pi), dsg(it, c.Expr))
 					pi++
 				}
 			}
@@ -643,13 +739,17 @@ func (g *ghostGen) addImport(name, path string) {
 	g.imports[name] = path
 }
 
-func desugarDecl(d string) string {
+func desugarDecl(d string, logical bool) string {
 	// ghost declarations are plain Go; only the spec function names are qualified and sugar inside return statements expanded
 	var out []string
 	for _, l := range strings.Split(d, "\n") {
 		t := strings.TrimSpace(l)
 		if strings.HasPrefix(t, "return ") {
-			l = "\treturn " + desugar(strings.TrimPrefix(t, "return "))
+			e := desugar(strings.TrimPrefix(t, "return "))
+			if logical {
+				e = lowerBool(e)
+			}
+			l = "\treturn " + e
 		} else {
 			l = qualifySpec(l)
 		}
@@ -933,6 +1033,9 @@ func LoadProgram(repo string, props map[string]bool) (*Program, error) {
 		key := pk + "." + h.Item.Name
 		if h.Item.Recv != "" {
 			key = pk + "." + h.Item.Recv + "." + h.Item.Name
+		}
+		if h.Item.Kind == "iface" {
+			key = "iface:" + key
 		}
 		fs := p.Summaries[key]
 		if fs == nil {
